@@ -662,7 +662,10 @@ func JSONLoadLink(val *fastjson.Value, l *Link) error {
 		l.Width = uint(w)
 	}
 	l.Name = JSONGetNaturalLanguageField(val, "name")
-	if hrefLang := JSONGetLangRefField(val, "hrefLang"); len(hrefLang) > 0 {
+	// the vocabulary's term is all lower case; the camel case spelling this package used to write is still read
+	if hrefLang := JSONGetLangRefField(val, "hreflang"); len(hrefLang) > 0 {
+		l.HrefLang = hrefLang
+	} else if hrefLang := JSONGetLangRefField(val, "hrefLang"); len(hrefLang) > 0 {
 		l.HrefLang = hrefLang
 	}
 	if href := JSONGetURIItem(val, "href"); href != nil {
